@@ -149,6 +149,27 @@ def concretise(hist, rnd):
     return out
 
 
+def roundtrip(rnd):
+    """every setter that has a matching getter, every index pair: set, read back at once, and read everything back
+    again at the end (a setter writing another element, e.g. the transposed one, shows in one of the two)"""
+    out = ["new"]
+    mats = ["Ae", "Au", "Ad", "mq2", "mu2", "md2", "ml2", "me2"]
+    order = [(m, i, k) for m in mats for i in range(3) for k in range(3)]
+    rnd.shuffle(order)
+    for m, i, k in order:
+        out.append("setm %s %d %d %s" % (m, i, k, float(rnd.uniform(-2e5, 2e5)).hex()))
+        out.append("getm %s %d %d" % (m, i, k))
+    for m, i, k in sorted(order):
+        out.append("getm %s %d %d" % (m, i, k))
+    for sname, gname in (("MZ_pole", "MZ"), ("MW_pole", "MW"), ("MT_pole", "MT"), ("MB_running", "MBMB"), ("ML_pole", "ML"),
+                         ("MM_pole", "MM"), ("MassB", "MassB"), ("MassWB", "MassWB"), ("MassG", "MassG"), ("Mu", "Mu"),
+                         ("g3", "g3"), ("scale", "scale")):
+        out.append("set %s %s" % (sname, float(rnd.uniform(1.0, 3e3)).hex()))
+        out.append("get %s" % gname)
+    out.append("free")
+    return out
+
+
 def histories(cx, n, seed, depth=40):
     r = tlc.run_tlc("CAPI.tla", "CAPI_sim.cfg", workers=4, heap="2g", timeout=1200,
                     extra=["-simulate", "num=%d" % ((n + 3) // 4), "-depth", str(depth + 1), "-seed", str(seed)])
@@ -187,6 +208,8 @@ def run(tier, seed):
     with open(script, "w") as fh:
         for i, h in enumerate(hs):
             fh.write("SEQ s%05d\n%s\nEND\n" % (i, "\n".join(concretise(h, rnd))))
+        for j in range(2 if tier == "quick" else 20):
+            fh.write("SEQ r%05d\n%s\nEND\n" % (j, "\n".join(roundtrip(rnd))))
     exe = build.driver_build("d_capi", flavour="asan")
     tr = cx.path("trace.ndjson")
     core.run_driver(exe, [script, tr], timeout=7200,
